@@ -38,10 +38,11 @@ def alphabet() -> dict:
         "1x": Item("1x", 0, "1x"),  # digit-leading
         "__r": Item("__reserved", 0, "__r"),  # leading double underscore
         "__h": Item("__hash__", 0, "__h"),  # an attribute every list has, with the value None
+        "None": Item("None", 0, "None"),  # a keyword that is not lower case
     }
 
 
-ITEMS = ["a1", "a2", "ap", "a_2", "keys", "class", "1x", "__r", "__h"]
+ITEMS = ["a1", "a2", "ap", "a_2", "keys", "class", "1x", "__r", "__h", "None"]
 # names that may be in use in some state; when they are not, looking them up must fail
 NAME_UNIVERSE = ["a", "a_2", "a_3", "a_2_2", "keys_2", "_class", "_1x", "__reserved", "__reserved_2", "class", "1x", "nosuchname"]
 
@@ -150,6 +151,9 @@ def invariants(nil: Any, ref: List[Item], by_identity: bool = True) -> List[Tupl
             out.append(("name-accessors-disagree", f"get({len(lst)}) beyond the end is {nil.get(len(lst))!r}"))
         if nil.get("nosuchname") is not None or nil.get("nosuchname", 7) != 7:
             out.append(("name-accessors-disagree", "get() of an unused name"))
+        for meth in ("sort", "pop", "keys", "_item_dict", "append", "__len__"):
+            if meth not in keys and nil.get(meth) is not None:  # names of the list's own attributes are not item names
+                out.append(("name-accessors-disagree", f"get({meth!r}) is {type(nil.get(meth)).__name__}, not None"))
     except Exception as e:  # noqa
         out.append(("name-accessors-disagree", f"get(): {type(e).__name__}"))
     if len(set(keys)) != len(keys):
